@@ -5,6 +5,8 @@ span ids, truthful error flags, parents.
 -/
 namespace Ebu.Bus
 
+/-! Helpers live in `Ebu.Bus.Obs` to keep the names apart from the other proof files. -/
+namespace Obs
 def notObs : Ev → Bool
   | .obs .. => false
   | _ => true
@@ -518,6 +520,10 @@ theorem run_seg {R : Type} (I : RegImpl R) (cfg : Config) (fuel : Nat) (faults :
   unfold run
   rw [hl]
   exact hs
+end Obs
+
+open Obs
+
 /-! ### the theorems -/
 
 /-- whatever one API call appends to the trace is balanced and properly nested: processed
